@@ -16,6 +16,8 @@ from concurrent.futures import ProcessPoolExecutor
 
 ROOT = os.path.dirname(os.path.dirname(os.path.abspath(__file__)))
 REPO = os.environ.get("PYVC_REPO", "/repo")
+# runs against a scratch copy (mutants, seeded changes) must not overwrite the evidence of the real tree
+OUT = os.environ.get("PYVC_OUT_DIR", ROOT)
 
 
 def _setup_path():
@@ -486,10 +488,10 @@ def assemble(pid, tier, seed, cons, results, cross, extras, known, findings, wal
             lines.append(f"KNOWN-FINDING: property={pid} {k['what_fails']}")
         else:
             lines.append(f"NOTE: known finding {k['id']} no longer reproduces ({detail})")
-    os.makedirs(os.path.join(ROOT, "replay"), exist_ok=True)
-    for fn in os.listdir(os.path.join(ROOT, "replay")):
+    os.makedirs(os.path.join(OUT, "replay"), exist_ok=True)
+    for fn in os.listdir(os.path.join(OUT, "replay")):
         if fn.startswith(pid + "_"):
-            os.unlink(os.path.join(ROOT, "replay", fn))
+            os.unlink(os.path.join(OUT, "replay", fn))
     exit_code = 0
     seen_v = set()
     dedup = []
@@ -500,7 +502,7 @@ def assemble(pid, tier, seed, cons, results, cross, extras, known, findings, wal
         seen_v.add(key)
         dedup.append(v)
     for i, v in enumerate(dedup):
-        path = os.path.join(ROOT, "replay", f"{pid}_{i}.json")
+        path = os.path.join(OUT, "replay", f"{pid}_{i}.json")
         rp = v.get("replay") or {}
         with open(path, "w") as f:
             json.dump({"property": pid, "obligation": v.get("name"), "kind": v.get("kind"), "status": v.get("status"),
@@ -546,8 +548,8 @@ def assemble(pid, tier, seed, cons, results, cross, extras, known, findings, wal
         "wall_s": round(wall, 2),
         "violations": len(unlisted),
     }
-    os.makedirs(os.path.join(ROOT, "evidence"), exist_ok=True)
-    with open(os.path.join(ROOT, "evidence", f"{pid}.json"), "w") as f:
+    os.makedirs(os.path.join(OUT, "evidence"), exist_ok=True)
+    with open(os.path.join(OUT, "evidence", f"{pid}.json"), "w") as f:
         json.dump(evidence, f, indent=1, default=str)
     for ln in lines:
         print(ln)
